@@ -6,4 +6,5 @@ let table : (string * ((val0 -> val0) * (val0 -> val0 -> bool))) list = [
   "finite_slots", (run_finite, holds_finite_slots);
   "valid", (run_valid, holds_valid);
   "valid_slots", (run_valid, holds_valid_slots);
+  "message", (run_message, holds_message);
 ]
